@@ -100,6 +100,8 @@ type TimeV struct {
 	UTC                   *Term // Bool: the value is in UTC (true) or in time.Local (false)
 	Year0                 bool // result of time.Parse without a date (year 0, Jan 1)
 	Inst                  *Term // abstract instant (BV64 nanoseconds on an arbitrary monotonic axis); civil fields unused when set
+	Off                   *Term // zone view Z2: the offset in effect at this time's instant (nil: the zone's fixed offset)
+	Bef                   *Term // zone view Z2: the instant lies before the zone's transition (Bool; set with Off)
 }
 
 // RegexpV is *regexp.Regexp.
@@ -143,9 +145,10 @@ type MapObj struct {
 
 // Chan objects
 type ChanObj struct {
-	Buf    []Value
-	Cap    int
-	Closed bool
+	Buf     []Value
+	Cap     int
+	Closed  bool
+	Handoff int // values placed beyond Cap for a parked receiver (rendezvous)
 }
 
 // ---------------------------------------------------------------- helpers
@@ -494,17 +497,25 @@ func (e *Engine) mergeVal(g *Term, a, b Value) (Value, bool) {
 		return x, true
 	case TimeV:
 		y, ok := b.(TimeV)
-		if !ok || x.Year0 != y.Year0 || (x.Inst == nil) != (y.Inst == nil) {
+		if !ok || x.Year0 != y.Year0 || (x.Inst == nil) != (y.Inst == nil) || (x.Off == nil) != (y.Off == nil) {
 			return nil, false
 		}
 		c := e.tc
+		var off, bef *Term
+		if x.Off != nil {
+			off = c.Ite(g, x.Off, y.Off)
+			if x.Bef == nil || y.Bef == nil {
+				return nil, false
+			}
+			bef = c.Ite(g, x.Bef, y.Bef)
+		}
 		if x.Inst != nil {
 			x.Inst = c.Ite(g, x.Inst, y.Inst)
 			x.UTC = c.Ite(g, x.UTC, y.UTC)
 			return x, true
 		}
 		return TimeV{Y: c.Ite(g, x.Y, y.Y), M: c.Ite(g, x.M, y.M), D: c.Ite(g, x.D, y.D), H: c.Ite(g, x.H, y.H),
-			Mi: c.Ite(g, x.Mi, y.Mi), S: c.Ite(g, x.S, y.S), Ns: c.Ite(g, x.Ns, y.Ns), UTC: c.Ite(g, x.UTC, y.UTC), Year0: x.Year0}, true
+			Mi: c.Ite(g, x.Mi, y.Mi), S: c.Ite(g, x.S, y.S), Ns: c.Ite(g, x.Ns, y.Ns), UTC: c.Ite(g, x.UTC, y.UTC), Year0: x.Year0, Off: off, Bef: bef}, true
 	case RegexpV:
 		y, ok := b.(RegexpV)
 		if !ok || x.Pat != y.Pat {
@@ -562,14 +573,14 @@ func (e *Engine) mergeVal(g *Term, a, b Value) (Value, bool) {
 		return e.mergeMap(g, x, y)
 	case *ChanObj:
 		y, ok := b.(*ChanObj)
-		if !ok || x.Closed != y.Closed || x.Cap != y.Cap || len(x.Buf) != len(y.Buf) {
+		if !ok || x.Closed != y.Closed || x.Cap != y.Cap || len(x.Buf) != len(y.Buf) || x.Handoff != y.Handoff {
 			return nil, false
 		}
 		out, ok := e.mergeVals(g, x.Buf, y.Buf)
 		if !ok {
 			return nil, false
 		}
-		return &ChanObj{Buf: out, Cap: x.Cap, Closed: x.Closed}, true
+		return &ChanObj{Buf: out, Cap: x.Cap, Closed: x.Closed, Handoff: x.Handoff}, true
 	}
 	return nil, false
 }
